@@ -176,12 +176,17 @@ def check_case(ctx, case, mode, is_async, tmp):
             e1.globals["late"] = "one"                               # global installed after the first load
             out.append(util.capture(lambda: t1.render(v='x')))
             out.append(util.capture(lambda: e1.get_template(probe).render(v='x')))
+            # the template OBJECT of the first environment used by a template of the second one
+            out.append(util.capture(lambda: e2.from_string("{% extends layout %}").render(layout=t1, v='x')))
+            out.append(util.capture(lambda: e2.from_string("[{% include layout %}]").render(layout=t1, v='x')))
+            out.append(util.capture(lambda: e2.from_string("{% import layout as m %}<{{ m }}>").render(layout=t1, v='x')))
             seqs[label] = [repr(o) for o in out]
         ctx.ev()
         ctx.count("shared_loader_sequences")
         if seqs["source"] != seqs["precompiled"]:
             ctx.violation(f"precompiled:{mode}:shared-loader-or-late-globals",
-                          f"sequence [env1, env2, env1 again, env1 after late global, env1 reloaded]: "
+                          f"sequence [env1, env2, env1 again, env1 after late global, env1 reloaded, env1's template object "
+                          f"as extends parent / include / import target in env2]: "
                           f"source {seqs['source']} vs precompiled {seqs['precompiled']}",
                           {"case": case, "mode": mode, "async": is_async})
     finally:
